@@ -45,8 +45,17 @@ def translation_clause(model, rep, funcs):
                 seen["tr_recv"] = norm_src(node.func.value)
             if nm in ("translate_internal", "linear_transform") and args:
                 seen["wrong_frame"] = (nm, node)
-            if nm == "replace":
-                seen["scale"] = kwargs.get("scale")
+            if nm == "replace" or norm_src(node.func) in ("self.__class__", "type(self)"):
+                # the binned loader: self.replace(molecules=, scale=) or the constructor itself with the same keywords
+                sc_ = kwargs.get("scale")
+                if sc_ is None and hasattr(callee, "cls"):
+                    # keyword arguments of a constructor call arrive positionalised: look the parameter up by its position in __init__
+                    ini_ = callee.cls.find_method("__init__")
+                    if ini_ is not None:
+                        ps_ = [x.arg for x in ini_.node.args.posonlyargs + ini_.node.args.args][1:]
+                        if "scale" in ps_ and ps_.index("scale") < len(args):
+                            sc_ = args[ps_.index("scale")]
+                seen["scale"] = sc_
                 seen["mol"] = norm_src(kwarg(node, "molecules")) if kwarg(node, "molecules") is not None else None
 
         it.on_call.append(on_call)
@@ -80,7 +89,10 @@ def translation_clause(model, rep, funcs):
                stmt=f"def binning scale ({a.split('::')[1]})")
         MB = Matcher(f)
         okm = seen.get("tr_recv") in ("self.molecules", "self._molecules") and \
-            MB.all_of(["$out = self.replace(molecules=self.molecules.translate($$t), ...)", "return $out"])[0]
+            (MB.all_of(["$out = self.replace(molecules=self.molecules.translate($$t), ...)", "return $out"])[0] or
+             MB.has("return self.replace(molecules=self.molecules.translate($$t), ...)") or
+             MB.has("return self.__class__($$img, molecules=self.molecules.translate($$t), ...)") or
+             MB.all_of(["$out = self.__class__($$img, molecules=self.molecules.translate($$t), ...)", "return $out"])[0])
         rep.ob("SLOT", a, "the translated copy of this loader's molecules is what the binned loader gets", okm, f"translate on {seen.get('tr_recv')}, replace(molecules={seen.get('mol')})",
                node=f.node, fn=f, clause="translation", stmt=f"def binning molecules ({a.split('::')[1]})")
         forms[a] = (tuple(repr(c) for c in comps), repr(sc))
@@ -189,7 +201,27 @@ def compute_tuple_clause(model, rep, funcs):
             parent = _parent(fn.node, c)
             ok = None
             det = norm_src(parent)[:90] if parent is not None else ""
-            if isinstance(parent, ast.Subscript) and parent.value is c:
+            if any(isinstance(a_, ast.Starred) for a_ in c.args) or len(c.args) > 1:
+                # compute(*collections) / compute(a, b): the tuple *is* the sequence of results, one per argument - iterating or zipping it is the intended use;
+                # results of compute(*D.values()) go back under the keys of the same D (zip(D.keys(), results) / zip(D, results)), not of another mapping
+                ok = True
+                st_arg = [a_.value for a_ in c.args if isinstance(a_, ast.Starred)]
+                src_d = None
+                if len(st_arg) == 1 and isinstance(st_arg[0], ast.Call) and isinstance(st_arg[0].func, ast.Attribute) and st_arg[0].func.attr == "values":
+                    src_d = norm_src(st_arg[0].func.value)
+                tname = None
+                if isinstance(parent, (ast.Assign, ast.AnnAssign)):
+                    t_ = parent.targets[0] if isinstance(parent, ast.Assign) else parent.target
+                    tname = t_.id if isinstance(t_, ast.Name) else None
+                if src_d is not None and tname is not None:
+                    for z in ast.walk(fn.node):
+                        if isinstance(z, ast.Call) and dotted(z.func) == "zip" and any(isinstance(x, ast.Name) and x.id == tname for x in z.args):
+                            others = [norm_src(x) for x in z.args if not (isinstance(x, ast.Name) and x.id == tname)]
+                            if not all(o in (src_d, f"{src_d}.keys()") for o in others):
+                                ok = False
+                                det = (f"`{norm_src(z)[:70]}` pairs the results of compute(*{src_d}.values()) with the keys of another mapping: images are stored under "
+                                       "ids they were not computed for")
+            elif isinstance(parent, ast.Subscript) and parent.value is c:
                 ok = True
             elif isinstance(parent, ast.Assign) and parent.value is c:
                 t = parent.targets[0]
@@ -236,6 +268,8 @@ def purity_clause(model, rep, funcs):
         s = norm_src(f.node)
         MB = Matcher(f)
         okimg = MB.all_of(["$img = _utils.bin_image(self.image, binsize=binsize)", "$out = self.replace(...)", "$out._image = $img", "return $out"])[0] or \
+            MB.all_of(["$img = _utils.bin_image(self.image, binsize=binsize)", "return self.__class__($img, ...)"])[0] or \
+            MB.all_of(["$img = _utils.bin_image(self.image, binsize=binsize)", "$out = self.__class__($img, ...)", "return $out"])[0] or \
             MB.all_of(["for $id, $image in self._images.items():\n    ...", "$b = _utils.bin_image($image, binsize=binsize)", "$imgs[$id] = $b",
                        "$out = self.replace(...)", "$out._images = $imgs", "return $out"])[0] or \
             MB.all_of(["$imgs = {$id: _utils.bin_image($image, binsize=binsize) for $id, $image in self._images.items()}",
